@@ -521,6 +521,72 @@ def _held_update_fields(F, rule):
 		out.append(Result(rule, False, 'floor:held-update-fields', 'only %d fields of HTLCUpdateAwaitingACK found (expected >= 15)' % n))
 	return out
 
+# BOLT 4 "Failure Messages": the code of every failure reason the specification names.  Oracle = the specification's table.
+_BOLT4 = {
+	'TemporaryNodeFailure': 0x2000 | 2, 'PermanentNodeFailure': 0x4000 | 0x2000 | 2, 'RequiredNodeFeature': 0x4000 | 0x2000 | 3,
+	'InvalidOnionVersion': 0x8000 | 0x4000 | 4, 'InvalidOnionHMAC': 0x8000 | 0x4000 | 5, 'InvalidOnionKey': 0x8000 | 0x4000 | 6,
+	'TemporaryChannelFailure': 0x1000 | 7, 'PermanentChannelFailure': 0x4000 | 8, 'RequiredChannelFeature': 0x4000 | 9,
+	'UnknownNextPeer': 0x4000 | 10, 'AmountBelowMinimum': 0x1000 | 11, 'FeeInsufficient': 0x1000 | 12, 'IncorrectCLTVExpiry': 0x1000 | 13,
+	'CLTVExpiryTooSoon': 0x1000 | 14, 'IncorrectPaymentDetails': 0x4000 | 15, 'FinalIncorrectCLTVExpiry': 18, 'FinalIncorrectHTLCAmount': 19,
+	'ChannelDisabled': 0x1000 | 20, 'CLTVExpiryTooFar': 21, 'InvalidOnionPayload': 0x4000 | 22, 'MPPTimeout': 23,
+	'InvalidOnionBlinding': 0x8000 | 0x4000 | 24,
+}
+
+def _const_eval(e):
+	k = e[0]
+	if k == 'const':
+		return e[1]
+	if k == 'cast':
+		return _const_eval(e[1])
+	if k == 'bin':
+		a, b = _const_eval(e[2]), _const_eval(e[3])
+		if a is None or b is None:
+			return None
+		return {'BitOr': a | b, 'BitAnd': a & b, 'Add': a + b}.get(e[1])
+	return None
+
+def r14n(F):
+	"""Failure codes: (i) every reason BOLT 4 names carries the specification's code; (ii) every LDK-internal reason is reported under one
+	of those codes (the sender can only interpret what the specification defines); (iii) the u16 -> reason table a sender decodes a received
+	code with knows every BOLT-4 reason (a reason missing there comes back as UnknownFailureCode, which the recipient-failure test of 14.g and
+	the permanence / blame classification do not recognise by variant)."""
+	rule = '14.n'
+	fn = F.fn('LocalHTLCFailureReason::failure_code')
+	adt = F.adt('onion_utils::LocalHTLCFailureReason')
+	tab = variant_return_table(F, fn, adt)
+	out = []
+	codes = {}
+	for v, vals in tab.items():
+		if v == 'UnknownFailureCode':
+			continue
+		cs = {_const_eval(x) for x in vals}
+		if len(cs) != 1 or None in cs:
+			out.append(Result(rule, False, 'code:%s' % v, 'failure_code: the code of %s is not a single constant (%s)' % (v, [expr_str(x) for x in vals][:3]), 1, where=F.where(fn)))
+			continue
+		codes[v] = cs.pop()
+	spec_codes = set(_BOLT4.values())
+	for v, c in sorted(_BOLT4.items()):
+		if v not in codes:
+			out.append(Result(rule, False, 'anchor:%s' % v, 'LocalHTLCFailureReason::%s (a BOLT-4 failure) has no arm in failure_code' % v, 1, where=F.where(fn)))
+		elif codes[v] != c:
+			out.append(Result(rule, False, 'bolt4:%s' % v, 'failure_code(%s) = 0x%04x, BOLT 4 says 0x%04x: the hop reports a different failure than the one it detected and the sender penalises / retries accordingly' % (v, codes[v], c), 1, where=F.where(fn)))
+	trampoline = {'TemporaryTrampolineFailure', 'TrampolineFeeOrExpiryInsufficient', 'UnknownNextTrampoline'}
+	for v, c in sorted(codes.items()):
+		if v in _BOLT4 or v in trampoline:
+			continue
+		if c not in spec_codes:
+			out.append(Result(rule, False, 'internal:%s' % v, 'the LDK-internal reason %s is reported as 0x%04x, which is no BOLT-4 failure code' % (v, c), 1, where=F.where(fn)))
+	# (iii) decode table
+	frm = [n for n in F.fns if n.endswith('LocalHTLCFailureReason as core::convert::From>::from')]
+	if len(frm) != 1:
+		raise AnchorMissing('From<u16> for LocalHTLCFailureReason')
+	built = {v for (a, v), sites in F.constructs.items() if a == adt for (f, _l) in sites if f == frm[0]}
+	for v in sorted(set(_BOLT4) - built):
+		out.append(Result(rule, False, 'decode:%s' % v, 'From<u16> for LocalHTLCFailureReason never yields %s: a received BOLT-4 code 0x%04x is decoded as UnknownFailureCode' % (v, _BOLT4[v]), 1, where=F.where(frm[0])))
+	if not out:
+		out.append(Result(rule, True, 'ok:failure-codes', '%d failure reasons: the %d BOLT-4 reasons carry the specification codes, %d internal reasons alias one of them, the decode table knows all %d' % (len(codes), len(_BOLT4), len(codes) - len(_BOLT4) - len(trampoline & set(codes)), len(_BOLT4)), len(codes) + len(built)))
+	return out
+
 RULES = [
 	('14.j', 'persisted failures keep their attribution data (writer getters of HTLCFailReasonRepr select on the variant only)', r14j),
 	('14.i', 'failure parsing: the channel_update length / body offsets follow the code-specific debug field', r14i),
@@ -540,4 +606,5 @@ RULES = [
 	('14.l', 'attribution data is verified at min(path length, MAX_HOPS) - index - 1 in both decoders', r14l),
 	('14.m', 'held updates are replayed with all their fields (attribution data of a held claim included)', r14m),
 	('14.x', 'range indexing of fixed-size buffers stays in bounds wherever the end is statically bounded (a wire length byte can be 255; rules/provenance.py)', lambda F: provenance.arrays_for_property(F, 'C14', '14.x')),
+	('14.n', 'failure codes: BOLT-4 reasons carry the specification codes, internal reasons alias one of them, the decode table knows every BOLT-4 reason', r14n),
 ]
